@@ -1,6 +1,6 @@
 #!/bin/bash
 # usage: tools/try_all.sh <patch.diff> - apply, run all quick checks, revert; print only verdict lines
-patch="$1"; cd /verif
+patch="$(readlink -f "$1")"; cd /verif
 git -C /repo diff --quiet || { echo "/repo not clean"; exit 3; }
 git -C /repo apply "$patch" || { echo "patch does not apply"; exit 3; }
 ./check all --tier quick | grep -E "^(src|mech)|ANALYSIS-ERROR" | cut -c1-230
